@@ -3,7 +3,8 @@
 Three engines, one oracle:
  (1) systematic enumeration over the seed corpus (programs embedded in /repo/tests, examples, library): every single-token
      deletion, truncation at every token boundary, replacement of every token by a rotating sample of the token alphabet
-     (incl. huge integer literals) and insertions - run through BOTH the direct lexer->parser->analyser path and the
+     (incl. huge integer literals), of every identifier by another identifier of the same program and of every base-class
+     name by every class of the program, and insertions - run through BOTH the direct lexer->parser->analyser path and the
      ModuleLoader path (`verifdrv front`), 40 inputs per process;
  (2) Hypothesis: random multi-edit mutants and byte-level noise, plus multi-file trees with one mutated member;
  (3) coverage-guided libFuzzer campaign (harness/fuzz_front.cpp, oracle inside the target, ASan+UBSan, dictionary); every
@@ -266,7 +267,24 @@ def systematic(src, spans, rot):
         out.append(src[:a] + rep2 + " " + src[a:])
         for x in EXTREMES.get(ty, []):
             out.append(src[:a] + x + src[b:])
-    return out
+    # name confusion inside one program: every identifier once replaced by another identifier of the SAME program (rotating),
+    # and the name after `extends` by every class declared in the program (self-inheritance, cycles, a class hanging off a cycle)
+    always = []  # few and structurally interesting: run in every tier
+    idents = sorted({src[a:b] for a, b, ty in spans if ty == "Identifier"})
+    classes = sorted({src[spans[i + 1][0]:spans[i + 1][1]] for i, (a, b, ty) in enumerate(spans[:-1])
+                      if src[a:b] == "class" and spans[i + 1][2] == "Identifier"})
+    for i, (a, b, ty) in enumerate(spans):
+        if ty != "Identifier":
+            continue
+        if len(idents) > 1:
+            rep = idents[(rot + 5 * i) % len(idents)]
+            if rep != src[a:b]:
+                out.append(src[:a] + rep + src[b:])
+        if i > 0 and src[spans[i - 1][0]:spans[i - 1][1]] == "extends":
+            for c in classes:
+                if c != src[a:b]:
+                    always.append(src[:a] + c + src[b:])
+    return always, out
 
 
 @st.composite
@@ -317,9 +335,11 @@ def _worker(widx, wseed, tier, check):
             spans = tokens_of(check, src, sc)
             if not spans:
                 continue
-            muts = [m for m in systematic(src, spans, rot) if len(m) <= 4096 and nesting_ok(m)]
+            always, muts = systematic(src, spans, rot)
+            muts = [m for m in muts if len(m) <= 4096 and nesting_ok(m)]
             if quick:
                 muts = muts[(wseed % 3)::3]
+            muts = [m for m in always if len(m) <= 4096] + muts
             for k in range(0, len(muts), BATCH):
                 chunk = muts[k:k + BATCH]
                 for direct in (False, True):
